@@ -269,3 +269,11 @@ class SymStr:
     def __init__(self, arr, length):
         self.arr = arr
         self.length = length
+
+
+class SymChar:
+    """One character of a symbolic string: a code point term plus the set of characters it may be."""
+
+    def __init__(self, code, alphabet=None):
+        self.code = code
+        self.alphabet = alphabet
